@@ -16,6 +16,12 @@ import TracklibVerif.Drv.Util
     base-`R` number (first field = lowest digit), mod `YD`.  `L` = number of labels.
     features = `name:c,c,…|…` (numbers)   models = `S/P/Q@…`, `S` = `l,l;e;u;l` (`e` = no candidate, `u` = what `S`
     returned has no length: a generator, None, a bare state), `P`, `Q` flat
+    models whose user functions READ THE TRACK they are handed or RAISE: `S/P/Q/<depS>!<depQ>!<depP>!<exc>!<S table>!…`;
+    `exc` is `-` or `;`-separated `S,k` / `Q,k,s1,s2` / `P,k,s`: the call `S(track,k)` / `Q(s1,s2,k,track)` / `P(s,y,k,track)`
+    raises (the status of such a call is `err:UserFunctionError`); a `dep` is `-`
+    or `name^off`: the function reads the digit `v` of feature `name` (also `x`, `y`, `z`, `idx`) at epoch `(k + off) % N`
+    (`0` when the track has no such feature); `S(track,k)` = row `k` of table number `v % (1 + number of further tables)`,
+    `Q(s1,s2,k,track)` = `QT[k][s1][(s2 + v) % L]`, `P(s,y,k,track)` = `PT[k][s][(code y + v) % YD]`
     coords = `<3L numbers>/<3N numbers>`: the coordinates of the state objects by label and of the positions of track 0
     (default: state `l` at `(l,0,0)`, epoch `k` at `(k,0,0)`); `x`, `y`, `z` among the names of `est` read them
     steps = `|`-separated: `new:h:log:mS:mQ:mP` `log:h:b` `setS:h:m` `setQ:h:m` `setP:h:m` `est:h:t:logarg:mode:names`
@@ -69,6 +75,13 @@ structure SModel where
   S : List SRet
   P : List Float
   Q : List Float
+  alt : List (List SRet) := []              -- further candidate tables: a track-reading `S` chooses among `S :: alt`
+  depS : Option (String × Nat) := none      -- the feature and the epoch offset `S(track, k)` reads from the track
+  depQ : Option (String × Nat) := none      -- … `Q(s1, s2, k, track)` …
+  depP : Option (String × Nat) := none      -- … `P(s, y, k, track)` …
+  excS : List Nat := []                     -- epochs `k` at which `S(track, k)` raises
+  excQ : List (Nat × Nat × Nat) := []       -- `(k, s1, s2)` at which `Q(s1, s2, k, track)` raises
+  excP : List (Nat × Nat) := []             -- `(k, s)` at which `P(s, y, k, track)` raises
 
 structure SObj where
   log : Bool
@@ -111,12 +124,35 @@ def digits (R : Nat) : List (ObsItem Float) → List Nat
 def codeOf (R YD : Nat) (y : List (ObsItem Float)) : Nat :=
   ((digits R y).foldr (fun d acc => d + R * acc) 0) % YD
 
-def objOf (s : Sess) (o : SObj) : Option (ObjS Float) :=
+/-- what a track-reading user function sees: the digit of feature `src` at epoch `(k + off) % N` of the track it is handed
+(`x`, `y`, `z`: the coordinates of whatever object the position is), `0` when the track has no such feature -/
+def readDigit (s : Sess) (tr : Trk Float) (dep : Option (String × Nat)) (k : Nat) : Nat :=
+  match dep with
+  | none => 0
+  | some (src, off) =>
+    match tr.getObs (numS s.stc) src ((k + off) % s.N) with
+    | .ok c => digit s.R c
+    | .error _ => 0
+
+/-- the user functions of an object: table look-ups, the table (`S`) / the column (`Q`, `P`) selected by what the
+function reads in the TRACK IT IS HANDED (`estimate` hands every one of them the track as it is when the call is made:
+`Model/Hmm.lean` evaluates `h.S tr`, `h.Q … tr`, `h.P … tr` on the argument of the call) -/
+def objOf (s : Sess) (o : SObj) : Option (ObjX Float) :=
   match s.models[o.mS]?, s.models[o.mQ]?, s.models[o.mP]? with
   | some ms, some mq, some mp =>
-    some { S := fun _ k => ms.S.getD k (.sized [])
-           Q := fun s1 s2 k _ => mq.Q.getD ((k * s.L + s1) * s.L + s2) 0.0
-           P := fun st y k _ => mp.P.getD ((k * s.L + st) * s.YD + codeOf s.R s.YD y) 0.0
+    some { S := fun tr k =>
+             if ms.excS.contains k then none else
+             match ms.depS with
+             | none => some (ms.S.getD k (.sized []))
+             | some _ =>
+               let tabs := ms.S :: ms.alt
+               some ((tabs.getD (readDigit s tr ms.depS k % tabs.length) ms.S).getD k (.sized []))
+           Q := fun s1 s2 k tr =>
+             if mq.excQ.contains (k, s1, s2) then none else
+             some (mq.Q.getD ((k * s.L + s1) * s.L + (s2 + readDigit s tr mq.depQ k) % s.L) 0.0)
+           P := fun st y k tr =>
+             if mp.excP.contains (k, st) then none else
+             some (mp.P.getD ((k * s.L + st) * s.YD + (codeOf s.R s.YD y + readDigit s tr mp.depP k) % s.YD) 0.0)
            log := o.log }
   | _, _, _ => none
 
@@ -139,6 +175,7 @@ def showErr : Option Err → String
   | some .emptyTrack => "err:AnalyticalFeatureError"
   | some .unsupported => "unsupported"
   | some .type => "err:type"
+  | some .user => "err:UserFunctionError"
 
 def showTrk (tr : Trk Float) : String :=
   joinWith ";" (tr.cols.map (fun c => c.1 ++ ":" ++ joinWith "," (c.2.map showCell))) ++ "/" ++
@@ -172,10 +209,10 @@ def step (s : Sess) (f : List String) : Option Sess :=
     let o ← (← s.objs[h]?)
     let tr ← s.tracks[t]?
     let ob ← objOf s o
-    let r := estimateS (numS s.stc) ob tr (splitTok names ',') lg mode
+    let r := estimateX (numS s.stc) ob tr (splitTok names ',') lg mode
     if r.2.2 == some Err.unsupported then none else
     let out := showErr r.2.2 ++ "/" ++ showCol r.2.1 "hmm_inference" ++ "/" ++ showCol r.2.1 "hmm_cost"
-    some { s with objs := s.objs.set! h (some { o with log := r.1.log }), tracks := s.tracks.set! t r.2.1,
+    some { s with objs := s.objs.set! h (some { o with log := r.1 }), tracks := s.tracks.set! t r.2.1,
                   outs := s.outs.push out }
   | ["obs", t, name, k, c] => do
     let t ← t.toNat?; let k ← k.toNat?; let c ← float? c
@@ -195,15 +232,47 @@ def step (s : Sess) (f : List String) : Option Sess :=
     some { s with tracks := s.tracks.push tr }
   | _ => none
 
+/-- a candidate table `l,l;e;u;l` of `N` epochs over `L` labels -/
+def stab? (N L : Nat) (sS : String) : Option (List SRet) := do
+  let S ← (splitTok sS ';').mapM (fun e => if e == "e" then some (SRet.sized []) else if e == "u" then some SRet.unsized
+                                             else (natList? e).map SRet.sized)
+  if S.length != N || S.any (·.items.any (· ≥ L)) then none else some S
+
+/-- `-` (the function does not look at the track) or `name^off` -/
+def dep? (d : String) : Option (Option (String × Nat)) :=
+  if d == "-" then some none else
+  match d.splitOn "^" with
+  | [name, off] => if name ∈ ["t", "timestamp"] || name == "" then none else off.toNat?.map (fun o => some (name, o))
+  | _ => none
+
 def model? (N L YD : Nat) (m : String) : Option SModel :=
-  match m.splitOn "/" with
-  | [sS, sP, sQ] => do
-    let S ← (splitTok sS ';').mapM (fun e => if e == "e" then some (SRet.sized []) else if e == "u" then some SRet.unsized
-                                               else (natList? e).map SRet.sized)
+  let base (sS sP sQ : String) : Option SModel := do
+    let S ← stab? N L sS
     let P ← floatList? sP
     let Q ← floatList? sQ
-    if S.length != N || S.any (·.items.any (· ≥ L)) || P.length != N * L * YD || Q.length != (N - 1) * L * L then none
+    if P.length != N * L * YD || Q.length != (N - 1) * L * L then none
     else some { S := S, P := P, Q := Q }
+  match m.splitOn "/" with
+  | [sS, sP, sQ] => base sS sP sQ
+  | [sS, sP, sQ, sD] => do
+    let b ← base sS sP sQ
+    match sD.splitOn "!" with
+    | dS :: dQ :: dP :: ex :: alts => do
+      let dS ← dep? dS; let dQ ← dep? dQ; let dP ← dep? dP
+      let alt ← alts.mapM (stab? N L)
+      let ex ← if ex == "-" then some [] else (ex.splitOn ";").mapM (fun e =>
+        match e.splitOn "," with
+        | f :: args => (args.mapM String.toNat?).map (fun a => (f, a))
+        | _ => none)
+      let excS ← ex.filterMapM (fun e => match e with
+        | ("S", [k]) => some (some k) | ("S", _) => none | _ => some none)
+      let excQ ← ex.filterMapM (fun e => match e with
+        | ("Q", [k, a, c]) => some (some (k, a, c)) | ("Q", _) => none | _ => some none)
+      let excP ← ex.filterMapM (fun e => match e with
+        | ("P", [k, a]) => some (some (k, a)) | ("P", _) => none | _ => some none)
+      if ex.any (fun e => e.1 != "S" && e.1 != "Q" && e.1 != "P") then none else
+      some { b with alt := alt, depS := dS, depQ := dQ, depP := dP, excS := excS, excQ := excQ, excP := excP }
+    | _ => none
   | _ => none
 
 def feat? (N : Nat) (f : String) : Option (String × List (Cell Float)) :=
